@@ -7,6 +7,7 @@ TODO: Handle sys.argv
 
 import sys
 import io
+import threading
 import types
 from itertools import zip_longest
 from unittest.mock import patch
@@ -159,9 +160,12 @@ class Sandbox:
             return timeout(self.allowed_time, self._execute,
                            code, filename, kind, False, **meta)
         except TimeoutError as timeout_exception:
-            self._stop_patches()
+            # The abandoned thread no longer touches this sandbox (see
+            # _was_terminated), so the cleanup and the report happen here.
+            self._stop_mocking(self._context[-1])
             self._capture_exception(timeout_exception, sys.exc_info(),
                                     code, filename)
+            self._next_context_id += 1
             return self
 
     def _execute(self, code, filename, kind, threaded, **meta):
@@ -186,20 +190,37 @@ class Sandbox:
             with self.trace.as_filename(filename, code):
                 exec(compiled_code, self.data)
         except Exception as user_exception:
+            if self._was_terminated():
+                return self
             self._stop_mocking(context)
             self._capture_exception(user_exception, sys.exc_info(),
                                     code, filename)
         # NOTE: https://docs.python.org/3/library/exceptions.html#SystemExit
         # This exception does not inherit from Exception and has to be caught separately
         except SystemExit as system_exit:
+            if self._was_terminated():
+                return self
             self._stop_mocking(context)
             self._capture_exception(system_exit, sys.exc_info(),
                                     code, filename)
+        except BaseException:
+            # KeyboardInterrupt, GeneratorExit, ...: not ours to report, but
+            # whatever was patched must still be restored.
+            if not self._was_terminated():
+                self._stop_mocking(context)
+            raise
         else:
+            if self._was_terminated():
+                return self
             self._stop_mocking(context)
-
         self._next_context_id += 1
         return self
+
+    @staticmethod
+    def _was_terminated():
+        """ Whether the current thread was abandoned after a timeout; its
+        caller then owns the cleanup and the report. """
+        return getattr(threading.current_thread(), 'terminated', False)
 
     def run(self, code=None, filename=None, inputs=None, threaded=None,
             after=None, before=None, real_io=False):
